@@ -72,6 +72,8 @@ def index_bound_violations(func):
                                 if isinstance(prev.value, ast.Constant) and isinstance(prev.value.value, int) and prev.value.value != 0:
                                     out.append((prev.lineno, 'the scan of %s starts at position %d: the entries before it are never examined' % (seq, prev.value.value)))
                                 break
+                if not any(isinstance(x, ast.Name) and x.id == l.id and isinstance(x.ctx, ast.Store) for st in w.body for x in ast.walk(st)):
+                    out.append((w.lineno, 'the scan of %s never advances %s: the same entry is examined for ever' % (seq, l.id)))
                 for x in ast.walk(w):
                     if isinstance(x, ast.AugAssign) and isinstance(x.target, ast.Name) and x.target.id == l.id and isinstance(x.op, ast.Add) \
                             and isinstance(x.value, ast.Constant) and isinstance(x.value.value, int) and x.value.value != 1:
